@@ -265,7 +265,8 @@ func (v ReceiverValidator) validateParamsCombinations(
 		diag := diagnostics.NewErrorDiagnostic(
 			newParam.FVersion.Path,
 			errMsg,
-			diagnostics.DiagReceiverRetValsInvalidSignature,
+			// This concerns the parameter, not the return values
+			diagnostics.DiagReceiverInvalidBody,
 			newParam.Range,
 		)
 		return &diag
